@@ -95,7 +95,8 @@ def derive(ctx, rng, case):
     if schema is None:
         return None
     try:
-        v = witness(spec, rng)
+        # also values sitting exactly on a bound / at an extreme length: pinning must keep them generatable
+        v = witness(spec, rng, rng.choice(("rand", "rand", "min", "max")))
     except Unsat:
         ctx.count("unsat_skipped")
         return None
